@@ -191,7 +191,8 @@ BS_WRITE = dict(BS_COMMON, goto_instrument_args=cut(["read_function", "go_readin
 BS_READ = dict(BS_COMMON, goto_instrument_args=cut(["write_function", "send_buffer", "read_function", "go_reading", "error_function"]))
 unit("bs.writev", ["C10"], "units/bs.c", entry="h_bs_writev",
      functions=["buffered_socket_writev", "copy_iovec_to_write_buffer", "copy_single_buffer", "send_buffer"],
-     expect_tags=["C10.writev.accepted-frame-sent-or-pending-completely", "C10.writev.bytes-in-generation-order", "C10.writev.refused-frame-leaves-no-byte-behind"], timeout=700, **BS_WRITE)
+     expect_tags=["C10.writev.accepted-frame-sent-or-pending-completely", "C10.writev.bytes-in-generation-order", "C10.writev.refused-frame-leaves-no-byte-behind"], timeout=700,
+     replay={"c": "replay/bs_replay.c", "extract": "bs_extract"}, **BS_WRITE)
 unit("bs.flush", ["C10"], "units/bs.c", entry="h_bs_flush", functions=["write_function", "send_buffer", "error_function"],
      expect_tags=["C10.flush.nothing-lost-nothing-duplicated", "C10.flush.bytes-in-order"], timeout=700, **BS_WRITE)
 unit("bs.read_exactly", ["C09"], "units/bs.c", entry="h_bs_read_exactly", functions=["get_read_ptr", "fill_buffer", "reorganize_read_buffer"],
@@ -344,9 +345,4 @@ PROPERTY_META["C06"] = {
     "not_decided": ["whole-daemon input robustness", "parse.c message boundary", "http_parser / cJSON internals"],
 }
 
-# properties whose units are not yet passing within the quick budget are not claimed (see MANIFEST not_applicable)
-PENDING = {"C10": "buffered-socket write-path units (bs.writev, bs.flush) exist but do not yet finish within the quick budget; no claim is made until they do",
-           "C09": "buffered-socket read-path units (bs.read_exactly, bs.read_until) exist but do not yet finish within the quick budget; no claim is made until they do"}
-for _p, _why in PENDING.items():
-    PROPERTY_META.pop(_p, None)
-    NOT_APPLICABLE[_p] = _why
+PENDING = {}
